@@ -12,7 +12,7 @@ class CXX2C(Emitter, ExprMixin, LibMixin, StmtMixin):
     def __init__(self, unit, objs):
         self.hooks = collections.defaultdict(list)
         self.enum_defs = collections.OrderedDict(); self.enum_vals = {}
-        self.pending_defaults = collections.OrderedDict(); self.lambda_vars = {}; self.root_ids = set()
+        self.pending_defaults = collections.OrderedDict(); self.lambda_vars = {}; self.root_ids = set(); self.nullable_stubs = set()
         self.used_records = collections.OrderedDict()
         self.cur_fn = None; self.cur_cname = None
         self.vars = {}; self.pre = []; self.iter_of = {}; self.iter_ty = {}; self.range_cleanup = []
@@ -151,7 +151,7 @@ class CXX2C(Emitter, ExprMixin, LibMixin, StmtMixin):
             # through --replace-call-with-contract (the default body is then ignored).
             L.append('#ifndef HAVE_%s' % cn)
             L.append(p[:-1] + '\n/*@CONTRACT:%s@*/' % cn)
-            L.append(self.default_stub_body(p))
+            L.append(self.default_stub_body(p, cn in self.nullable_stubs))
             L.append('#else')
             L.append(p)
             L.append('#endif')
@@ -161,7 +161,7 @@ class CXX2C(Emitter, ExprMixin, LibMixin, StmtMixin):
         L.append('/*@HARNESS@*/')
         return '\n'.join(L) + '\n'
 
-    def default_stub_body(self, proto):
+    def default_stub_body(self, proto, nullable=False):
         m = re.match(r'(.*?)\s*(\w+)\((.*)\);$', proto, re.S)
         rt = m.group(1).strip(); params = m.group(3)
         if m.group(2).startswith('cc_new_'):
@@ -173,6 +173,8 @@ class CXX2C(Emitter, ExprMixin, LibMixin, StmtMixin):
             pm = re.match(r'(const )?%s\* this_' % re.escape(base), params)
             if pm and not pm.group(1):
                 return '{ return this_; }   /* reference result: the object itself */'
+            if nullable:
+                return '{ static %s ghost_result_; %s fresh_; cc_bool null_; ghost_result_ = fresh_; return null_ ? 0 : &ghost_result_; }   /* pointer result: null or some object */' % (base, base)
             return '{ static %s ghost_result_; %s fresh_; ghost_result_ = fresh_; return &ghost_result_; }' % (base, base)
         return '{ %s nondet_result_; return nondet_result_; }' % rt
 
